@@ -65,10 +65,11 @@ structure PCore where
   cs : Nat
   written : List (List Int)
   todo : List (List Int)
+  fail : Bool
   deriving DecidableEq
 
 def core (p : Player) : PCore :=
-  { audio := p.audio, cs := p.cs, written := p.written, todo := p.todo }
+  { audio := p.audio, cs := p.cs, written := p.written, todo := p.todo, fail := p.fail }
 
 /-- is the player inside the chunk generator / about to write? -/
 def atW (p : Player) : Bool := p.pc == .write
@@ -85,14 +86,15 @@ theorem map_set_same {α β} (f : α → β) (l : List α) (i : Nat) (p p' : α)
   · simp [hk]
 
 /-- the `AudioThread` object `play` creates -/
-def freshPlayer (a : List Int) (c : Nat) : Player :=
-  { pc := .new, audio := a, cs := c, all := chunksOf c a, todo := chunksOf c a, written := [],
-    sst := .unopened, lk := none, go := false, halting := false }
+def freshPlayer (a : List Int) (c : Nat) (f : Bool) : Player :=
+  { pc := .new, audio := a, cs := c, all := playChunks c a f, todo := playChunks c a f, written := [],
+    sst := .unopened, lk := none, go := false, halting := false, fail := f }
 
 /-- the control script never touches what a chunk generator depends on; it creates players -/
 theorem stepMain_core (cfg : Cfg) (s s' : State) (h : stepMain cfg s = some s') :
     s'.players.map core = s.players.map core ∨
-    ∃ a c, s.mpc = .pAcq a c ∧ s'.players = s.players ++ [freshPlayer a c] := by
+    ∃ a c, s.mpc = .pAcq a c ∧
+      s'.players = s.players ++ [freshPlayer a c (cfg.fails.getD s.players.length false)] := by
   unfold stepMain at h
   split at h <;> (try split at h) <;> (try split at h) <;> (try split at h) <;> (try cases h) <;>
     (first
@@ -112,12 +114,12 @@ theorem stepMain_core (cfg : Cfg) (s s' : State) (h : stepMain cfg s = some s') 
 theorem stepMain_atW (cfg : Cfg) (s s' : State) (h : stepMain cfg s = some s')
     (hnew : ∀ i p, s.mpc = .pStart i → s.players[i]? = some p → p.pc = .new) :
     s'.players.map atW = s.players.map atW ∨
-    ∃ a c, s'.players = s.players ++ [freshPlayer a c] := by
+    ∃ a c f, s'.players = s.players ++ [freshPlayer a c f] := by
   unfold stepMain at h
   split at h <;> (try split at h) <;> (try split at h) <;> (try split at h) <;> (try cases h) <;>
     (first
       | (left; simp [setP]; done)
-      | (right; exact ⟨_, _, rfl⟩)
+      | (right; exact ⟨_, _, _, rfl⟩)
       | (left
          first
            | (simp only [setP]
@@ -405,7 +407,7 @@ theorem pacq_reach {cfg : Cfg} {script : List Cmd} {s : State} (h : Reach cfg sc
 /-! ### refinement: without failing iterables a fine step is a coarse step or a stutter step -/
 
 /-- no played iterable raises -/
-def NoFail (fc : FCfg) : Prop := ∀ b, b ∈ fc.fails → b = false
+def NoFail (fc : FCfg) : Prop := ∀ b, b ∈ fc.cfg.fails → b = false
 
 /-- every `play` call of the script has a positive chunk size -/
 def PosCs (script : List Cmd) : Prop := ∀ a c, Cmd.play a c ∈ script → 0 < c
@@ -448,60 +450,102 @@ def genView (p : Player) : PCore × Bool := (core p, atW p)
 
 /-- the ghost `todo` of the coarse record is the chunk sequence of what the chunk generator still
     holds (buffer, then unpulled samples); the buffer is empty outside the generator -/
-structure Ref (d : PCore × Bool) (a : Asm) : Prop where
+structure Ref (fc : FCfg) (d : PCore × Bool) (a : Asm) : Prop where
   pos : 0 < d.1.cs
-  nofail : a.fail = false
-  todo : d.1.todo = chunksOf d.1.cs (a.buf ++ a.rest)
-  idle : d.2 = false → a.buf = []
-  busy : d.2 = true → a.buf ++ a.rest ≠ []
+  fl : a.fail = d.1.fail
+  ok : fc.dieFixed = true ∨ a.fail = false
+  todo : d.1.todo = playChunks d.1.cs (a.buf ++ a.rest) a.fail
+  idle : d.2 = false → a.buf = [] ∨ a.fail = true
+  busy : d.2 = true → a.buf ++ a.rest ≠ [] ∨ a.fail = true
   len : a.buf.length ≤ d.1.cs
+
+/-- the hypothesis of the refinement: `run` has its `try … finally` (an iterable that raises sends
+    the thread to its epilogue), or no played iterable raises -/
+def Sound (fc : FCfg) : Prop := fc.dieFixed = true ∨ NoFail fc
+
+theorem playChunks_false (cs : Nat) (xs : List Int) : playChunks cs xs false = chunksOf cs xs := by
+  simp [playChunks]
+
+/-- a full buffer is the next chunk, for an iterable that raises at its end too -/
+theorem playChunks_full (cs : Nat) (hs : 0 < cs) (buf rest : List Int) (f : Bool)
+    (hl : buf.length = cs) : playChunks cs (buf ++ rest) f = buf :: playChunks cs rest f := by
+  cases f with
+  | false => simp only [playChunks_false]; exact chunksOf_full cs hs buf rest hl
+  | true =>
+    simp only [playChunks, if_true]
+    rw [chunksOf_full cs hs buf rest hl, List.length_append, hl, Nat.add_div_left _ hs,
+      List.take_succ_cons]
+
+/-- fewer samples than a chunk and then an exception: no chunk -/
+theorem playChunks_short_fail (cs : Nat) (xs : List Int) (hl : xs.length < cs) :
+    playChunks cs xs true = [] := by
+  simp [playChunks, Nat.div_eq_of_lt hl]
 
 theorem chunksOf_nil (cs : Nat) (hs : 0 < cs) : chunksOf cs [] = [] := by
   have := chunksOf_nil_iff cs hs []
   simpa using this
 
-theorem loopHead_eq (p : Player) (a : Asm) (h : Ref (genView p) a) (hw : atW p = false) :
-    loopHeadF a = loopHead p := by
-  have hb := h.idle hw
-  have ht := h.todo
-  simp only [genView, core, hb, List.nil_append] at ht
+theorem loopHead_eq (fc : FCfg) (p : Player) (a : Asm) (h : Ref fc (genView p) a)
+    (hw : atW p = false) : loopHeadF a = loopHead p := by
+  have hfl := h.fl
+  simp only [genView, core] at hfl
   unfold loopHeadF loopHead
-  rw [ht, chunksOf_nil_iff p.cs h.pos, h.nofail]
-  simp
+  cases hf : a.fail with
+  | true => rw [← hfl, hf]; simp
+  | false =>
+    have hb : a.buf = [] := by
+      rcases h.idle hw with hb | hb
+      · exact hb
+      · rw [hf] at hb; cases hb
+    have ht := h.todo
+    simp only [genView, core, hb, List.nil_append, hf, playChunks_false] at ht
+    rw [ht, chunksOf_nil_iff p.cs h.pos, ← hfl, hf]
 
 /-- the record after the loop header keeps `Ref` -/
-theorem ref_loopHead (p p' : Player) (a : Asm) (h : Ref (genView p) a) (hw : atW p = false)
-    (hc : core p' = core p) (hpc : p'.pc = loopHeadF a ∨ atW p' = false) : Ref (genView p') a := by
-  obtain ⟨h1, h2, h3, h4, h5, h6⟩ := h
+theorem ref_loopHead (fc : FCfg) (p p' : Player) (a : Asm) (h : Ref fc (genView p) a)
+    (hw : atW p = false) (hc : core p' = core p) (hpc : p'.pc = loopHeadF a ∨ atW p' = false) :
+    Ref fc (genView p') a := by
+  obtain ⟨h1, hfl, hok, h3, h4, h5, h6⟩ := h
   simp only [genView] at *
   rw [hc]
-  refine ⟨h1, h2, h3, fun _ => h4 hw, ?_, h6⟩
+  refine ⟨h1, hfl, hok, h3, fun _ => h4 hw, ?_, h6⟩
   intro hw'
   rcases hpc with hpc | hpc
-  · have hb := h4 hw
-    simp only [atW, hpc, loopHeadF] at hw'
-    rw [hb, List.nil_append]
-    intro hr
-    rw [hr, h2] at hw'
-    simp at hw'
+  · cases hf : a.fail with
+    | true => exact Or.inr rfl
+    | false =>
+      left
+      have hb : a.buf = [] := by
+        rcases h4 hw with hb | hb
+        · exact hb
+        · rw [hf] at hb; cases hb
+      simp only [atW, hpc, loopHeadF] at hw'
+      rw [hb, List.nil_append]
+      intro hr
+      rw [hr, hf] at hw'
+      simp at hw'
   · rw [hpc] at hw'; cases hw'
 
-theorem ref_write (p : Player) (a : Asm) (h : Ref (genView p) a) (hw : atW p = true)
+theorem ref_write (fc : FCfg) (p : Player) (a : Asm) (h : Ref fc (genView p) a) (hw : atW p = true)
     (hready : chunkReady p a = true) :
-    p.todo = (a.buf ++ List.replicate (p.cs - a.buf.length) 0) :: chunksOf p.cs a.rest := by
-  obtain ⟨h1, h2, h3, _, h5, h6⟩ := h
+    p.todo = (a.buf ++ List.replicate (p.cs - a.buf.length) 0) :: playChunks p.cs a.rest a.fail := by
+  obtain ⟨h1, _, _, h3, _, h5, h6⟩ := h
   simp only [genView, core] at h1 h3 h5 h6
   rw [h3]
   by_cases hfull : a.buf.length = p.cs
-  · rw [chunksOf_full p.cs h1 _ _ hfull, hfull, Nat.sub_self, List.replicate_zero, List.append_nil]
-  · have hr : a.rest = [] := by
-      simp only [chunkReady, Bool.or_eq_true, beq_iff_eq, Bool.and_eq_true, List.isEmpty_iff] at hready
+  · rw [playChunks_full p.cs h1 _ _ _ hfull, hfull, Nat.sub_self, List.replicate_zero, List.append_nil]
+  · have hr : a.rest = [] ∧ a.fail = false := by
+      simp only [chunkReady, Bool.or_eq_true, beq_iff_eq, Bool.and_eq_true, List.isEmpty_iff,
+        Bool.not_eq_true'] at hready
       rcases hready with hready | hready
       · exact absurd hready hfull
-      · exact hready.1
+      · exact hready
     have hne : a.buf ≠ [] := by
-      have := h5 hw; rw [hr, List.append_nil] at this; exact this
-    rw [hr, List.append_nil, chunksOf_short p.cs a.buf hne (by omega), chunksOf_nil p.cs h1]
+      rcases h5 hw with h | h
+      · rw [hr.1, List.append_nil] at h; exact h
+      · rw [hr.2] at h; cases h
+    rw [hr.1, hr.2, List.append_nil, playChunks_false, playChunks_false,
+      chunksOf_short p.cs a.buf hne (by omega), chunksOf_nil p.cs h1]
 
 /-- samples still to be pulled, all players together (the stutter steps decrease it) -/
 def restSum (asm : List Asm) : Nat := (asm.map (fun a => a.rest.length)).sum
@@ -524,9 +568,9 @@ theorem restSum_set (asm : List Asm) (i : Nat) (a a' : Asm) (ha : asm[i]? = some
       omega
 
 theorem sim_stepPlayerF (fc : FCfg) (fs fs' : FState) (i : Nat)
-    (h : stepPlayerF fc fs i = some fs') (inv : AllF genView fs Ref) :
+    (h : stepPlayerF fc fs i = some fs') (inv : AllF genView fs (Ref fc)) :
     ((stepPlayer fc.cfg fs.base i = some fs'.base ∧ restSum fs'.asm = restSum fs.asm) ∨
-      (fs'.base = fs.base ∧ restSum fs'.asm + 1 = restSum fs.asm)) ∧ AllF genView fs' Ref := by
+      (fs'.base = fs.base ∧ restSum fs'.asm + 1 = restSum fs.asm)) ∧ AllF genView fs' (Ref fc) := by
   unfold stepPlayerF at h
   split at h
   · rename_i p a hp ha
@@ -537,15 +581,15 @@ theorem sim_stepPlayerF (fc : FCfg) (fs fs' : FState) (i : Nat)
       have hw : atW p = false := by simp [atW, hpc]
       cases h
       refine ⟨Or.inl ⟨?_, rfl⟩, AllF_update hp ha rfl (set_self _ _ _ ha).symm inv
-        (fun hR => ref_loopHead p _ a hR hw (by simp [core]) (Or.inl rfl))⟩
-      rw [loopHead_eq p a hR hw]
+        (fun hR => ref_loopHead fc p _ a hR hw (by simp [core]) (Or.inl rfl))⟩
+      rw [loopHead_eq fc p a hR hw]
       simp [stepPlayer, hp, hpc]
     · rename_i hpc
       have hw : atW p = false := by simp [atW, hpc]
       cases h
       refine ⟨Or.inl ⟨?_, rfl⟩, AllF_update hp ha rfl (set_self _ _ _ ha).symm inv
-        (fun hR => ref_loopHead p _ a hR hw (by simp [core]) ?_)⟩
-      · rw [loopHead_eq p a hR hw]
+        (fun hR => ref_loopHead fc p _ a hR hw (by simp [core]) ?_)⟩
+      · rw [loopHead_eq fc p a hR hw]
         simp [stepPlayer, hp, hpc]
       · cases p.go
         · right; simp [atW]
@@ -554,22 +598,22 @@ theorem sim_stepPlayerF (fc : FCfg) (fs fs' : FState) (i : Nat)
       have hw : atW p = false := by simp [atW, hpc]
       cases h
       refine ⟨Or.inl ⟨?_, rfl⟩, AllF_update hp ha rfl (set_self _ _ _ ha).symm inv
-        (fun hR => ref_loopHead p _ a hR hw (by simp [core]) (Or.inl rfl))⟩
-      rw [loopHead_eq p a hR hw]
+        (fun hR => ref_loopHead fc p _ a hR hw (by simp [core]) (Or.inl rfl))⟩
+      rw [loopHead_eq fc p a hR hw]
       simp [stepPlayer, hp, hpc]
     · rename_i hpc
       have hw : atW p = true := by simp [atW, hpc]
       split at h
       · rename_i hready
-        have ht := ref_write p a hR hw hready
+        have ht := ref_write fc p a hR hw hready
         cases h
         refine ⟨Or.inl ⟨?_, ?_⟩, AllF_update hp ha rfl rfl inv (fun hR => ?_)⟩
         · simp only [stepPlayer, hp, hpc, ht, List.tail_cons]
         · have := restSum_set fs.asm i a { a with buf := [] } ha
           simp only at this ⊢
           omega
-        · obtain ⟨h1, h2, _, _, _, _⟩ := hR
-          refine ⟨h1, h2, ?_, fun _ => rfl, ?_, by simp⟩
+        · obtain ⟨h1, hfl, hok, _, _, _, _⟩ := hR
+          refine ⟨h1, hfl, hok, ?_, fun _ => Or.inl rfl, ?_, by simp⟩
           · simp only [genView, core, ht, List.tail_cons, List.nil_append]
           · intro hw'
             simp only [genView, atW] at hw'
@@ -585,19 +629,44 @@ theorem sim_stepPlayerF (fc : FCfg) (fs fs' : FState) (i : Nat)
             simp only [List.length_cons] at this
             omega
           refine ⟨Or.inr ⟨rfl, hsum⟩, AllF_update hp ha (set_self _ _ _ hp).symm rfl inv (fun hR => ?_)⟩
-          obtain ⟨h1, h2, h3, _, _, h6⟩ := hR
+          obtain ⟨h1, hfl, hok, h3, _, _, h6⟩ := hR
           have hn : a.buf.length ≠ p.cs := by
             intro e; apply hready; simp [chunkReady, e]
-          refine ⟨h1, h2, ?_, fun hw' => ?_, fun _ => by simp, ?_⟩
+          refine ⟨h1, hfl, hok, ?_, fun hw' => ?_, fun _ => Or.inl (by simp), ?_⟩
           · rw [h3, hrest]; simp
           · simp only [genView] at hw'; rw [hw] at hw'; cases hw'
           · simp only [genView, core] at h6 ⊢
             simp only [List.length_append, List.length_cons, List.length_nil]
             omega
-        · rename_i hrest
-          exfalso
-          apply hready
-          simp [chunkReady, hrest, hR.nofail]
+        · -- the iterable raises: the coarse player is at `write` with nothing left and `fail` set
+          rename_i hrest
+          have hfail : a.fail = true := by
+            cases hf : a.fail with
+            | true => rfl
+            | false => exfalso; apply hready; simp [chunkReady, hrest, hf]
+          have hdie : fc.dieFixed = true := by
+            rcases hR.ok with h | h
+            · exact h
+            · rw [hfail] at h; cases h
+          have hn : a.buf.length < p.cs := by
+            have h6 := hR.len
+            simp only [genView, core] at h6
+            have : a.buf.length ≠ p.cs := by
+              intro e; apply hready; simp [chunkReady, e]
+            omega
+          have ht : p.todo = [] := by
+            have h3 := hR.todo
+            simp only [genView, core] at h3
+            rw [h3, hrest, List.append_nil, hfail]
+            exact playChunks_short_fail p.cs a.buf hn
+          have hpf : p.fail = true := by
+            have := hR.fl; simp only [genView, core] at this; rw [← this]; exact hfail
+          cases h
+          refine ⟨Or.inl ⟨?_, rfl⟩, AllF_update hp ha rfl (set_self _ _ _ ha).symm inv (fun hR => ?_)⟩
+          · simp [stepPlayer, hp, hpc, ht, hpf, hdie]
+          · obtain ⟨h1, hfl, hok, h3, _, _, h6⟩ := hR
+            refine ⟨h1, hfl, hok, h3, fun _ => Or.inr hfail, fun hw' => ?_, h6⟩
+            simp [genView, atW, hdie] at hw'
     · rename_i h1 h2 h3 h4
       cases hs : stepPlayer fc.cfg fs.base i with
       | none => rw [hs] at h; cases h
@@ -616,10 +685,10 @@ theorem map_genView {l l' : List Player} (h1 : l'.map core = l.map core)
     intro m; rw [List.zip_map']; rfl
   rw [e, e, h1, h2]
 
-theorem sim_stepMainF (fc : FCfg) (script : List Cmd) (fs fs' : FState) (hnf : NoFail fc)
+theorem sim_stepMainF (fc : FCfg) (script : List Cmd) (fs fs' : FState) (hsd : Sound fc)
     (hpos : PosCs script) (h : stepMainF fc fs = some fs') (hr : Reach fc.cfg script fs.base)
-    (inv : AllF genView fs Ref) :
-    stepMain fc.cfg fs.base = some fs'.base ∧ AllF genView fs' Ref := by
+    (inv : AllF genView fs (Ref fc)) :
+    stepMain fc.cfg fs.base = some fs'.base ∧ AllF genView fs' (Ref fc) := by
   unfold stepMainF at h
   cases hs : stepMain fc.cfg fs.base with
   | none => rw [hs] at h; cases h
@@ -633,7 +702,7 @@ theorem sim_stepMainF (fc : FCfg) (script : List Cmd) (fs fs' : FState) (hnf : N
       rw [pcAt_of_get hp] at this
       simpa using this
     rcases stepMain_core fc.cfg fs.base s' hs with hm | ⟨a, c, hpa, hm⟩
-    · rcases stepMain_atW fc.cfg fs.base s' hs hnew with hm2 | ⟨a, c, hm2⟩
+    · rcases stepMain_atW fc.cfg fs.base s' hs hnew with hm2 | ⟨a, c, f, hm2⟩
       · exact AllF_main_same fc (map_genView hm hm2) inv
       · exfalso
         have := congrArg List.length hm
@@ -641,20 +710,23 @@ theorem sim_stepMainF (fc : FCfg) (script : List Cmd) (fs fs' : FState) (hnf : N
         simp at this
     · refine AllF_main_new fc hm inv ?_
       have hc : 0 < c := hpos a c (pacq_reach hr a c hpa)
-      have hf : (fc.fails.getD fs.base.players.length false) = false := by
-        rw [List.getD_eq_getElem?_getD]
-        cases hg : fc.fails[fs.base.players.length]? with
-        | none => rfl
-        | some b => exact hnf b (List.mem_of_getElem? hg)
-      refine ⟨hc, hf, ?_, fun _ => rfl, ?_, by simp [newAsm]⟩
+      have hok : fc.dieFixed = true ∨ (fc.cfg.fails.getD fs.base.players.length false) = false := by
+        rcases hsd with h | hnf
+        · exact Or.inl h
+        · right
+          rw [List.getD_eq_getElem?_getD]
+          cases hg : fc.cfg.fails[fs.base.players.length]? with
+          | none => rfl
+          | some b => exact hnf b (List.mem_of_getElem? hg)
+      refine ⟨hc, rfl, hok, ?_, fun _ => Or.inl rfl, ?_, by simp [newAsm]⟩
       · simp [genView, core, freshPlayer, newAsm]
       · intro hw; simp [genView, atW, freshPlayer] at hw
 
 /-- **refinement**: the coarse state carried by a reachable fine state is reachable in the coarse
     system (same script, same `Cfg`), and `Ref` ties its ghost `todo` to the chunk generators -/
-theorem sim_reach {fc : FCfg} {script : List Cmd} {fs : FState} (hnf : NoFail fc)
+theorem sim_reach {fc : FCfg} {script : List Cmd} {fs : FState} (hsd : Sound fc)
     (hpos : PosCs script) (h : ReachF fc script fs) :
-    Reach fc.cfg script fs.base ∧ AllF genView fs Ref := by
+    Reach fc.cfg script fs.base ∧ AllF genView fs (Ref fc) := by
   induction h with
   | init => exact ⟨Reach.init, AllF_init _ _ _⟩
   | step _ hs ih =>
@@ -662,12 +734,14 @@ theorem sim_reach {fc : FCfg} {script : List Cmd} {fs : FState} (hnf : NoFail fc
     obtain ⟨hr, inv⟩ := ih
     cases t with
     | main =>
-      obtain ⟨h1, h2⟩ := sim_stepMainF fc script fs fs' hnf hpos hs hr inv
+      obtain ⟨h1, h2⟩ := sim_stepMainF fc script fs fs' hsd hpos hs hr inv
       exact ⟨Reach.step (t := .main) hr h1, h2⟩
     | player i =>
       obtain ⟨h1, h2⟩ := sim_stepPlayerF fc fs fs' i hs inv
       rcases h1 with ⟨h1, _⟩ | ⟨h1, _⟩
       · exact ⟨Reach.step (t := .player i) hr h1, h2⟩
       · rw [h1]; exact ⟨hr, h2⟩
+
+theorem sound_of_nofail {fc : FCfg} (h : NoFail fc) : Sound fc := Or.inr h
 
 end ALV.C17
